@@ -199,11 +199,11 @@ class Res:
 
 KNOWN_KINDS = {'seq', 'sor', 'opt', 'star', 'plus', 'rep', 'rep_opt', 'rep_min_max', 'until', 'if_must', 'must',
                'if_then_else', 'at', 'not_at', 'one', 'range', 'ranges', 'string', 'any', 'eof', 'success', 'failure',
-               'maximum_rule'}
+               'maximum_rule', 'eol', 'eolf'}
 ARITY = {'opt': (1, 1), 'star': (1, 1), 'plus': (1, 1), 'rep': (1, 1), 'rep_opt': (1, 1), 'rep_min_max': (1, 1),
          'until': (1, 2), 'if_must': (2, 2), 'must': (1, 1), 'if_then_else': (3, 3), 'at': (1, 1), 'not_at': (1, 1),
          'one': (0, 0), 'range': (0, 0), 'ranges': (0, 0), 'string': (0, 0), 'any': (0, 0), 'eof': (0, 0),
-         'success': (0, 0), 'failure': (0, 0), 'maximum_rule': (0, 0), 'seq': (0, 999), 'sor': (0, 999)}
+         'success': (0, 0), 'failure': (0, 0), 'maximum_rule': (0, 0), 'eol': (0, 0), 'eolf': (0, 0), 'seq': (0, 999), 'sor': (0, 999)}
 RAISING_KINDS = {'must'}
 
 
@@ -662,6 +662,24 @@ class PegEnc:
 
     def _k_eof(self, r, i):
         return Res({i: i == self.n}, False)
+
+    def _k_eol(self, r, i):
+        # the eol rule under the policy of the input the grammar is run on: the replay parser and the property use the default eol::lf_crlf
+        # (LF, or CR LF); other policies are outside the claim
+        A = self.A
+        ends = {}
+        if i + 1 <= self.n:
+            ends[i + 1] = A.byte_in_set(i, frozenset([0x0a]))
+        if i + 2 <= self.n:
+            ends[i + 2] = A.and_([A.byte_in_set(i, frozenset([0x0d])), A.byte_in_set(i + 1, frozenset([0x0a]))])
+        return Res(ends, False)
+
+    def _k_eolf(self, r, i):
+        x = self._k_eol(r, i)
+        ends = dict(x.ends)
+        if i == self.n:
+            ends[i] = True
+        return Res(ends, False)
 
     def _k_success(self, r, i):
         return Res({i: True}, False)
